@@ -81,17 +81,25 @@ EXPORT errno_t _strzero_s_chk(char *dest, rsize_t dmax,
         CHK_DEST_OVR("strzero_s", destbos)
     }
 
-    /* null string to eliminate data */
-    while (dmax && *dest) {
-        *dest = '\0';
-        dmax--;
-        dest++;
-    }
+    /* null string to eliminate data. The buffer is typically dead afterwards:
+       store through a volatile pointer, a plain memset() of the slack is
+       removed as a dead store once this function is inlined into the caller
+       (link-time optimization), barrier or not */
+    {
+        volatile char *vp = dest;
+        while (dmax && *vp) {
+            *vp = '\0';
+            dmax--;
+            vp++;
+        }
 #ifdef SAFECLIB_STR_NULL_SLACK
-    if (dmax && !*dest)
-        memset(dest, 0, dmax);
+        while (dmax) {
+            *vp = '\0';
+            dmax--;
+            vp++;
+        }
 #endif
-    /* the buffer is typically dead afterwards: keep the stores */
+    }
     MEMORY_BARRIER;
 
     return (EOK);
